@@ -118,11 +118,13 @@ func (w *World) StartS() bool {
 		w.syncerEvent("S", sy.S, ev)
 		return true
 	}
-	// S will block on the wake-up channel.
-	w.St.Lock.RLock()
-	sy.SWaitCh = w.St.PBL.GetBlockPutWakeup()
-	w.St.Lock.RUnlock()
+	// S will block on the wake-up channel. Wait until it has actually
+	// fetched the channel, so that the harness polls the very channel S
+	// waits on (nothing else runs meanwhile).
+	before, _ := w.St.Source.ChCalls()
 	sy.S.Resume(nil)
+	w.waitFor(func() bool { n, _ := w.St.Source.ChCalls(); return n > before }, "S to fetch the put wake-up channel")
+	sy.SWaitCh, _ = w.St.Source.LastChannels()
 	return true
 }
 
@@ -233,7 +235,11 @@ func (w *World) StartR() {
 	sy.R = w.Sched.Spawn("R", func() interface{} { syncer.ProcessBlockRelease(); return nil })
 	if sy.S != nil && sy.S.Parked && sy.S.At == "statewrite" {
 		w.logf("R: start while S is inside the state store (expected to block on the store lock)")
+		_, before := w.St.Source.ChCalls()
 		sy.R.Resume(nil)
+		// R must have fetched the (closed) release channel before anything
+		// else happens; from there it heads straight for the store lock.
+		w.waitFor(func() bool { _, n := w.St.Source.ChCalls(); return n > before }, "R to fetch the release wake-up channel")
 		if ev, ok := sy.R.TryAwait(3 * time.Millisecond); ok {
 			w.syncerEvent("R", sy.R, ev)
 			w.CheckMonitors()
@@ -529,3 +535,16 @@ func (w *World) CheckSurvivorsFresh(what string, ci *CrashImage, must []ObjInst)
 
 // Syn returns the syncer state (creating it on first use).
 func (w *World) Syn() *Syncers { return w.syn() }
+
+// waitFor spins (bounded real time) until a condition that another
+// goroutine is about to establish holds. Used only to wait for a
+// resumed coroutine to pass a point it reaches unconditionally.
+func (w *World) waitFor(cond func() bool, what string) {
+	deadline := time.Now().Add(20 * time.Second)
+	for !cond() {
+		if time.Now().After(deadline) {
+			w.fatalf("harness: timed out waiting for %s", what)
+		}
+		time.Sleep(20 * time.Microsecond)
+	}
+}
